@@ -94,7 +94,7 @@ TYPE_POOL = [('A', 1), ('A', 2), ('A', 3), ('A', 4), ('D', 1), ('D', 2), ('D', 3
 
 
 def gen_ruleset(rng, max_structs=4, max_pos=4, max_groups=4, max_vals=3, mode=None, markov=None,
-                encoding='utf-8', omen=None, allow_dup_struct=True):
+                encoding='utf-8', omen=None, allow_dup_struct=True, markov_levels=None):
     """returns a spec for common.write_ruleset"""
     if mode is None:
         mode = rng.choice(['dyadic', 'dyadic', 'float', 'tiny', 'close'])
@@ -135,7 +135,8 @@ def gen_ruleset(rng, max_structs=4, max_pos=4, max_groups=4, max_vals=3, mode=No
         grammar.insert(pos, ['M', rng.choice(DYADIC)])
         # deep OMEN levels have probabilities (level share / keyspace) far below 2**-52: distinct values closer than any tolerance
         lv = _strictly_decreasing_probs(rng, rng.randint(1, 3), 'close' if (mode == 'close' or rng.random() < 0.15) else 'dyadic')
-        levels = rng.sample(range(1, 6), len(lv))
+        levels = rng.sample(range(1, 6), len(lv)) if not markov_levels else rng.sample(markov_levels, min(len(lv), len(markov_levels)))
+        lv = lv[:len(levels)]
         omen_prob = [[str(l), p] for l, p in zip(levels, lv)]
     spec = {'encoding': encoding, 'terminals': terminals, 'grammar': grammar, 'omen_prob': omen_prob,
             'prince': [], 'mode': mode}
